@@ -1,4 +1,4 @@
 From Coq Require Import Extraction ExtrOcamlBasic NArith.
 From DV Require Import Base.Outcome C10.Gen C10.Model.
 Extraction Language OCaml.
-Extraction "../build/ml/C10/model.ml" c10_run c10_apply c10_transfers c10_check c10_diff c10_diff_good c10_diff_applies c10_diff_applies_all c10_sender_axfr c10_sender_ixfr c10_client.
+Extraction "../build/ml/C10/model.ml" c10_run c10_apply c10_transfers c10_check c10_diff c10_diff_good c10_diff_applies c10_diff_applies_all c10_sender_axfr c10_sender_ixfr c10_client c10_decide.
